@@ -377,8 +377,41 @@ Definition nst_nonce (m : bytes) : bytes := let b := msg_body m in take 9 (N.to_
 Definition cv13_content (server : bool) (th : bytes) : bytes :=
   repeat 0x20%N 64 ++ (if server then LBL_cv_server else LBL_cv_client) ++ 0%N :: th.
 
-(* everything RFC 8446 derives from (PSK, (EC)DHE, the handshake messages in order) *)
+(* RFC 8446 4.2.11 / 4.1.3: the server announces the PSK it SELECTED by a pre_shared_key extension (selected_identity) in
+   its ServerHello; without it no PSK is in use, whatever the client offered, and 7.1 applies: "if a given secret is not
+   available, then the 0-value consisting of a string of Hash.length bytes set to zeros is used" for the PSK.
+   ServerHello body: legacy_version(2) random(32) legacy_session_id_echo<0..32> cipher_suite(2) compression(1) extensions<6..2^16-1> *)
+Definition u16_at (b : bytes) (off : nat) : nat := N.to_nat (nth off b 0%N) * 256 + N.to_nat (nth (S off) b 0%N).
+Fixpoint ext_types (fuel : nat) (b : bytes) : list nat :=
+  match fuel with
+  | O => []
+  | S f => match b with
+           | _ :: _ :: _ :: _ :: _ => u16_at b 0 :: ext_types f (skipn (4 + u16_at b 2) b)
+           | _ => []
+           end
+  end.
+Definition server_hello_ext_types (m : bytes) : list nat :=
+  let b := msg_body m in
+  let off := 35 + N.to_nat (nth 34 b 0%N) + 3 in
+  ext_types (length b) (firstn (u16_at b off) (skipn (off + 2) b)).
+Definition EXT_PRE_SHARED_KEY : nat := 41.
+Definition psk_selected (msgs : list bytes) : bool :=
+  match the_nth is_server_hello 0 msgs with
+  | Some sh => existsb (Nat.eqb EXT_PRE_SHARED_KEY) (server_hello_ext_types sh)
+  | None => false
+  end.
+Definition selected_psk (offered : option bytes) (msgs : list bytes) : option bytes := if psk_selected msgs then offered else None.
+(* Early Secret and the salt of the Handshake Secret extraction for a given PSK-in-use *)
+Definition early_secret_of (h : halg) (psk : option bytes) : bytes :=
+  HKDF_Extract h (zeros (hlen h)) (match psk with Some p => p | None => zeros (hlen h) end).
+Definition handshake_salt (h : halg) (psk : option bytes) : bytes :=
+  derive_secret_h h (early_secret_of h psk) LBL_derived (Hash h []).
+
+(* everything RFC 8446 derives from (offered PSK, (EC)DHE, the handshake messages in order) *)
 Record hs13 := {
+  t_psk_selected : bool;
+  t_offered : sched13;                   (* the schedule started from the OFFERED PSK: binder key and early traffic (4.2.11.2, 4.2.10) *)
+  t_hs_salt : bytes;                     (* Derive-Secret(Early Secret, "derived", "") that salts the Handshake Secret *)
   t_sched : sched13;
   t_binder : bytes;                      (* PskBinderEntry of the (last) ClientHello, [] without PSK *)
   t_c_e_key : bytes; t_c_e_iv : bytes;
@@ -389,14 +422,16 @@ Record hs13 := {
 }.
 (* binders_len = length of the `binders` field (with its 2 length bytes) at the end of the last ClientHello:
    RFC 8446 4.2.11.2 Truncate() removes exactly that *)
-Definition tls13_handshake (h : halg) (keylen : nat) (psk : option bytes) (resumption : bool) (ecdhe : option bytes)
+Definition tls13_handshake (h : halg) (keylen : nat) (psk_offered : option bytes) (resumption : bool) (ecdhe : option bytes)
            (binders_len : nat) (msgs : list bytes) : hs13 :=
+  let psk := selected_psk psk_offered msgs in
   let fin := is_type HT_FINISHED in
   let th_ch := transcript_hash h (through_nth (is_type HT_CLIENT_HELLO) 0 msgs) in
   let th_sh := transcript_hash h (through_nth is_server_hello 0 msgs) in
   let th_sfin := transcript_hash h (through_nth fin 0 msgs) in
   let th_cfin := transcript_hash h (through_nth fin 1 msgs) in
   let s := schedule13 h psk resumption ecdhe th_ch th_sh th_sfin th_cfin in
+  let so := schedule13 h psk_offered resumption ecdhe th_ch th_sh th_sfin th_cfin in
   (* the ClientHello carrying the binders is the last one before the ServerHello *)
   let upto_ch := match split_nth is_server_hello 0 msgs with Some (pre, _) => pre | None => msgs end in
   let trunc := firstn (length (transcript_bytes h upto_ch) - binders_len) (transcript_bytes h upto_ch) in
@@ -406,9 +441,12 @@ Definition tls13_handshake (h : halg) (keylen : nat) (psk : option bytes) (resum
       | None => [] end in
   let pre_sfin := before_nth fin 0 msgs in
   let pre_cfin := before_nth fin 1 msgs in
-  {| t_sched := s;
-     t_binder := match psk with Some _ => verify_data13 h (e_binder_key s) (Hash h trunc) | None => [] end;
-     t_c_e_key := traffic_key h (e_c_e_traffic s) keylen; t_c_e_iv := traffic_iv h (e_c_e_traffic s);
+  {| t_psk_selected := psk_selected msgs;
+     t_offered := so;
+     t_hs_salt := handshake_salt h psk;
+     t_sched := s;
+     t_binder := match psk_offered with Some _ => verify_data13 h (e_binder_key so) (Hash h trunc) | None => [] end;
+     t_c_e_key := traffic_key h (e_c_e_traffic so) keylen; t_c_e_iv := traffic_iv h (e_c_e_traffic so);
      t_c_hs_key := traffic_key h (e_c_hs_traffic s) keylen; t_c_hs_iv := traffic_iv h (e_c_hs_traffic s);
      t_s_hs_key := traffic_key h (e_s_hs_traffic s) keylen; t_s_hs_iv := traffic_iv h (e_s_hs_traffic s);
      t_c_ap_key := traffic_key h (e_c_ap_traffic s) keylen; t_c_ap_iv := traffic_iv h (e_c_ap_traffic s);
@@ -506,5 +544,10 @@ Proof. vm_compute. reflexivity. Qed.
 (* RFC 8017 9.2: the DigestInfo of a SHA-256 digest is 51 bytes, 0x30 0x31 .. 0x04 0x20 || H *)
 Example strip_zeros_example : strip_trailing_zeros [1; 0; 2; 23; 0; 0]%N = [1; 0; 2; 23]%N /\ strip_trailing_zeros [0; 0]%N = [].
 Proof. split; reflexivity. Qed.
+(* ServerHello extension scan: supported_versions, key_share, pre_shared_key -> selected; without the last -> not selected *)
+Example server_hello_exts_example :
+  server_hello_ext_types (hex "0200003a03030000000000000000000000000000000000000000000000000000000000000000001301000012002b00020304003300020017002900020000") = [43; 51; 41] /\
+  psk_selected [[1%N]; hex "0200003a03030000000000000000000000000000000000000000000000000000000000000000001301000012002b00020304003300020017002900020000"] = true /\ psk_selected [[1%N]; hex "020000340303000000000000000000000000000000000000000000000000000000000000000000130100000c002b00020304003300020017"] = false.
+Proof. vm_compute. repeat split. Qed.
 Example digest_info_sha256_len : length (digest_info DI_SHA256 (sha256_spec [])) = 51.
 Proof. vm_compute. reflexivity. Qed.
